@@ -351,7 +351,158 @@ struct ModelRun
         bool   em;
         size_t cp;
     };
-    Obs observe() { return Obs{box->size(), box->empty(), M.bounded() ? box->capacity() : 0}; }
+    Obs observe()
+    {
+        Obs a{box->size(), box->empty(), M.bounded() ? box->capacity() : 0};
+        if (shadow)
+        {
+            Obs b{shadow->size(), shadow->empty(), M.bounded() ? shadow->capacity() : 0};
+            const bool f8_sizes = M.utx() && x.c.cfg.ttl_ms == 0; // F8: dead-on-arrival entries are counted until the next call
+            // sizes may differ only through expired entries: spliced no-effect calls may reap them (C19), and ut_map/ut_set
+            // purge once per call, so a range call and its singles (or an empty range) reap at different moments
+            const bool lenient  = (twin_mode == "twin-noop" && M.ttl_kind()) || (twin_mode == "twin-range" && M.utx()) || f8_sizes;
+            if (!lenient && (a.s != b.s || a.em != b.em))
+                x.fail(step, twin_tag, "twin_size_differs",
+                       "size()/empty() of the two instances differ: " + std::to_string(a.s) + "/" + std::to_string(a.em) + " vs " + std::to_string(b.s) + "/" +
+                           std::to_string(b.em));
+            shadow_obs       = b;
+            shadow_obs_valid = lenient;
+            if (a.cp != b.cp)
+                x.fail(step, twin_tag, "twin_capacity_differs", "capacity() differs");
+        }
+        return a;
+    }
+
+    // ---- twin support --------------------------------------------------------------------------
+    std::unique_ptr<bx::IBox> shadow;      // second real instance (twin modes)
+    std::string               twin_mode;   // "", twin-range, twin-noop, twin-clear
+    std::string               twin_tag;    // property the twin comparison belongs to
+    int                       clear_at{-1};
+    long                      splices_done{0};
+    bool                      after_clear{false};
+
+    // auxiliary peek lookup; mirrored on the second instance and compared
+    bool pfind(int k, uint64_t& v, size_t* uc = nullptr)
+    {
+        size_t ua = 0;
+        bool   ha = x.peek_find(*box, k, v, &ua);
+        if (uc)
+            *uc = ua;
+        if (shadow)
+        {
+            uint64_t vb = 0;
+            size_t   ub = 0;
+            bool     hb = x.peek_find(*shadow, k, vb, &ub);
+            if (ha != hb || (ha && !x.caps.is_set && v != vb) || (ha && x.caps.has_uc && ua != ub))
+                x.fail(step, twin_tag, "twin_peek_differs",
+                       "peek lookup of key " + std::to_string(k) + ": first instance " + (ha ? "hit value " + std::to_string(v) + " uses " + std::to_string(ua) : std::string("miss")) +
+                           ", second instance " + (hb ? "hit value " + std::to_string(vb) + " uses " + std::to_string(ub) : std::string("miss")));
+        }
+        return ha;
+    }
+
+    std::set<int> ZB;                  // keys that may be expired-and-resident in the second instance (superset)
+    bool          shadow_called{false}; // the second instance made at least one container call since the last check
+    Obs  shadow_obs{0, true, 0};
+    bool shadow_obs_valid{false};
+    bool compare_excluded{false}; // set by the caller when the statement excludes this op's result from the comparison
+
+    Outcome main_exec(const Op& o)
+    {
+        Outcome r = x.exec(*box, o, step);
+        if (!shadow)
+            return r;
+        shadow_called = true;
+        const bool is_range = o.code == cs::O_INSR || o.code == cs::O_ERAR || o.code == cs::O_FINDR || o.code == cs::O_FINDRF;
+        if (twin_mode == "twin-range" && is_range)
+        {
+            auto el = x.effective(o);
+            shadow_called = !el.empty();
+            std::ostringstream d;
+            d << cs::op_name(o.code) << "(flavour " << x.flavour_of(o) << ", keys";
+            for (auto& e : el)
+                d << " " << e.k;
+            d << ")";
+            std::set<int> ks;
+            bool          dup = false;
+            for (auto& e : el)
+                if (!ks.insert(e.k).second)
+                    dup = true;
+            if (o.code == cs::O_INSR)
+            {
+                size_t n = 0;
+                for (auto& e : el)
+                    if (shadow->insert(e.k, value_for(e.k, step, e.orig), o.allow, e.ttl_ms))
+                        ++n;
+                if (M.utx() && x.c.cfg.ttl_ms == 0 && dup && !x.opt.strict_f8)
+                    x.label("excluded_known_F8_C18");
+                else if (n != r.n)
+                    x.fail(step, twin_tag, "range_insert_count_vs_singles",
+                           (M.utx() && x.c.cfg.ttl_ms == 0 ? "F8 " : "") + d.str() + " returned " + std::to_string(r.n) + " but the same single inserts succeeded " + std::to_string(n) + " times");
+                if (n > 0 && n < el.size())
+                    x.label("twin_range_mixed_success");
+            }
+            else if (o.code == cs::O_ERAR)
+            {
+                size_t n = 0;
+                for (auto& e : el)
+                    if (shadow->erase(e.k))
+                        ++n;
+                if (n != r.n)
+                    x.fail(step, twin_tag, "range_erase_count_vs_singles",
+                           d.str() + " returned " + std::to_string(r.n) + " but the same single erases succeeded " + std::to_string(n) + " times");
+                if (n > 0 && n < el.size())
+                    x.label("twin_range_mixed_success");
+            }
+            else
+            {
+                if (r.fr.size() != el.size())
+                    x.fail(step, twin_tag, "find_range_one_result_per_key", d.str() + " returned " + std::to_string(r.fr.size()) + " results for " + std::to_string(el.size()) + " keys");
+                const bool peek = x.caps.has_peek ? o.peek : false;
+                size_t     hits = 0;
+                for (size_t i = 0; i < el.size(); ++i)
+                {
+                    uint64_t v = 0;
+                    bool     h = shadow->find(el[i].k, peek, v);
+                    if (h)
+                        ++hits;
+                    if (r.fr[i].k != el[i].k)
+                        x.fail(step, twin_tag, "find_range_order", d.str() + ": result " + std::to_string(i) + " is not reported for input key " + std::to_string(el[i].k));
+                    if (r.fr[i].hit != h || (h && !x.caps.is_set && r.fr[i].v != v))
+                        x.fail(step, twin_tag, "range_lookup_vs_singles",
+                               d.str() + ": element " + std::to_string(i) + " (key " + std::to_string(el[i].k) + ") range says " +
+                                   (r.fr[i].hit ? std::to_string(r.fr[i].v) : std::string("miss")) + ", single lookup says " + (h ? std::to_string(v) : std::string("miss")));
+                }
+                if (hits > 0 && hits < el.size())
+                    x.label("twin_range_mixed_success");
+            }
+            if (dup)
+                x.label("twin_range_with_duplicate");
+            x.label("twin_range_calls");
+            return r;
+        }
+        const size_t sb0 = shadow->size();
+        Outcome      rb  = x.exec(*shadow, o, step);
+        if (twin_mode == "twin-noop" && M.ttl_kind())
+        {
+            // what the statement allows to differ: results of an erase addressed to an expired key, and the size-derived clean count
+            if (o.code == cs::O_CLEAN)
+            {
+                if (!rb.skipped && sb0 - rb.n != M.live.size())
+                    x.fail(step, twin_tag + ",C17", "twin_clean_count",
+                           "second instance: size before " + std::to_string(sb0) + " - returned " + std::to_string(rb.n) + " != live " + std::to_string(M.live.size()));
+                return r;
+            }
+            if (compare_excluded)
+            {
+                x.label("excluded_by_statement");
+                return r;
+            }
+        }
+        if (!r.same(rb))
+            x.fail(step, twin_tag, "twin_result_differs", std::string(cs::op_name(o.code)) + ": first instance " + r.str() + ", second instance " + rb.str());
+        return r;
+    }
 
     void invariants(bool after_call, const Obs& ob)
     {
@@ -369,6 +520,25 @@ struct ModelRun
                 x.fail(step, "C02", "size_le_capacity", "size()=" + std::to_string(s) + " capacity=" + std::to_string(M.cap));
         }
         const size_t nl = M.live.size();
+        if (shadow && shadow_obs_valid)
+        {
+            // the second instance on its own: live <= size <= live + expired-not-removed, within capacity, empty() consistent
+            const Obs& b = shadow_obs;
+            if (M.utx() && shadow_called)
+                ZB.clear(); // its purge at the start of the call removed everything expired before the call
+            for (int k : M.Z)
+                ZB.insert(k);
+            for (auto& [k, e] : M.live)
+            {
+                (void)e;
+                ZB.erase(k);
+            }
+            if (b.s < nl || b.s > nl + ZB.size() || (M.bounded() && b.s > M.cap) || b.em != (b.s == 0))
+                x.fail(step, twin_tag + ",C02", "twin_size_bounds",
+                       "second instance: size()=" + std::to_string(b.s) + " live=" + std::to_string(nl) + " expired-not-removed<=" + std::to_string(ZB.size()));
+            shadow_obs_valid = false;
+            shadow_called    = false;
+        }
         if (!M.ttl_kind())
         {
             if (s != nl)
@@ -426,7 +596,7 @@ struct ModelRun
             {
                 uint64_t v  = 0;
                 size_t   uc = 0;
-                bool     h  = x.peek_find(*box, k, v, &uc);
+                bool     h  = pfind(k, v, &uc);
                 if (!h)
                     x.fail(step, miss_tags, "live_key_missing", "key " + std::to_string(k) + " should be found (peek) but is not");
                 if (!x.caps.is_set && v != it->second.val)
@@ -445,7 +615,7 @@ struct ModelRun
                 if (mode >= 2)
                 {
                     uint64_t v = 0;
-                    bool     h = x.peek_find(*box, k, v);
+                    bool     h = pfind(k, v);
                     probe_zombie_labels(k);
                     if (h)
                         x.fail(step, "C04", "expired_entry_served", "key " + std::to_string(k) + " expired but was returned (value " + std::to_string(v) + ")");
@@ -454,7 +624,7 @@ struct ModelRun
             else if (mode >= 1)
             {
                 uint64_t v = 0;
-                bool     h = x.peek_find(*box, k, v);
+                bool     h = pfind(k, v);
                 if (h)
                     x.fail(step, "C01", "absent_key_found",
                            "key " + std::to_string(k) + " must be absent but returned " + std::to_string(v) + " (a value written for key " +
@@ -474,6 +644,7 @@ struct ModelRun
         for (auto& [k, e] : M.live)
             if (M.ttl_kind() && e.deadline <= now)
             {
+                ZB.insert(k);
                 zombie_deadline[k] = e.deadline;
                 zombie_flags[k]    = (e.moved_deadline ? 1 : 0) | (e.written_after_uttl ? 2 : 0);
                 prior_expired.insert(k);
@@ -565,6 +736,10 @@ struct ModelRun
     {
         ++evictions_in_case;
         x.label("evictions");
+        if (splices_done > 0)
+            x.label("evictions_after_splice");
+        if (after_clear)
+            x.label("evictions_after_clear");
         if (evictions_in_case == 2)
             x.label("cases_with_chained_evictions");
         prior_evicted.insert(victim);
@@ -642,7 +817,7 @@ struct ModelRun
         const bool       k_live = M.live.count(o.k) != 0, k_zombie = M.Z.count(o.k) != 0;
         const size_t     nz0 = s0 >= L0.size() ? s0 - L0.size() : 0;
 
-        const bool r  = box->insert(o.k, v, o.allow, ttl);
+        const bool r  = main_exec(o).b;
         const Obs  ob1 = observe();
         const size_t s1 = ob1.s;
 
@@ -653,7 +828,7 @@ struct ModelRun
             if (k == o.k)
                 continue;
             uint64_t pv = 0;
-            if (!x.peek_find(*box, k, pv))
+            if (!pfind(k, pv))
                 lost.push_back(k);
         }
 
@@ -678,7 +853,7 @@ struct ModelRun
             {
                 // C09: allow::update never creates an entry for an absent key
                 uint64_t pv = 0;
-                if (!k_zombie && x.peek_find(*box, o.k, pv))
+                if (!k_zombie && pfind(o.k, pv))
                     x.fail(step, "C09", "update_created_entry", "allow::update on absent key " + std::to_string(o.k) + " created an entry");
             }
             if (!M.ttl_kind() && s1 != s0)
@@ -854,7 +1029,7 @@ struct ModelRun
         bool         overflow = false;
         auto         cands    = expand(M, el, step, o.allow, false, overflow);
 
-        Outcome      r  = x.exec(*box, o, step);
+        Outcome      r  = main_exec(o);
         const Obs    ob1 = observe();
         const size_t s1 = ob1.s;
         (void)s0;
@@ -881,7 +1056,7 @@ struct ModelRun
                 continue; // expired in every candidate that knows it: do not reap it by looking
             uint64_t v  = 0;
             size_t   uc = 0;
-            bool     h  = x.peek_find(*box, k, v, &uc);
+            bool     h  = pfind(k, v, &uc);
             ob.hit[k]   = h;
             ob.val[k]   = v;
             ob.uc[k]    = uc;
@@ -957,7 +1132,13 @@ struct ModelRun
                 ++removals;
             }
             if (best->evictions)
+            {
                 x.label("evictions", best->evictions);
+                if (splices_done > 0)
+                    x.label("evictions_after_splice");
+                if (after_clear)
+                    x.label("evictions_after_clear");
+            }
             for (auto& e : el)
                 if (best->m.live.count(e.k) && !M.live.count(e.k) && removals > 0)
                 {
@@ -982,7 +1163,9 @@ struct ModelRun
     {
         M.call_start_purge();
         const bool k_live = M.live.count(o.k) != 0;
-        Outcome    r      = x.exec(*box, o, step);
+        compare_excluded  = M.Z.count(o.k) != 0;
+        Outcome    r      = main_exec(o);
+        compare_excluded  = false;
         const Obs  ob1    = observe();
         if (k_live)
         {
@@ -1027,13 +1210,15 @@ struct ModelRun
             if (M.Z.count(e.k) && std::find(z_in.begin(), z_in.end(), e.k) == z_in.end())
                 z_in.push_back(e.k);
         }
-        Outcome   r    = x.exec(*box, o, step);
+        compare_excluded = !z_in.empty();
+        Outcome   r    = main_exec(o);
+        compare_excluded = false;
         const Obs ob1  = observe();
         size_t    gone = 0;
         for (int k : live_in)
         {
             uint64_t v = 0;
-            if (!x.peek_find(*box, k, v))
+            if (!pfind(k, v))
             {
                 if (M.kind == bx::K_FIFO)
                 {
@@ -1065,7 +1250,7 @@ struct ModelRun
     {
         M.call_start_purge();
         auto      el  = x.effective(o);
-        Outcome   r   = x.exec(*box, o, step);
+        Outcome   r   = main_exec(o);
         const Obs ob1 = observe();
         if (r.fr.size() != el.size())
             x.fail(step, "C18", "find_range_one_result_per_key",
@@ -1094,6 +1279,8 @@ struct ModelRun
         int n = M.expire(vt::now());
         if (n > 0)
             x.label("entries_expired_by_clock", n);
+        if (n > 0 && after_clear)
+            x.label("expired_after_clear");
         since_adv = true;
         invariants(false, observe());
         if (!M.utx())
@@ -1102,7 +1289,7 @@ struct ModelRun
             for (auto& [k, e] : M.live)
             {
                 uint64_t v = 0;
-                if (!x.peek_find(*box, k, v))
+                if (!pfind(k, v))
                     x.fail(step, M.ttl_kind() ? "C05" : "C03", "lost_across_clock_advance",
                            "key " + std::to_string(k) + " (deadline in " + std::to_string(e.deadline - vt::now()) + " ns) disappeared across a pure clock advance");
             }
@@ -1133,19 +1320,121 @@ struct ModelRun
         after_clock_move();
     }
 
+    // ---- twin-noop: a call that must have no effect, executed by the second instance only ---------------
+    void do_splice(const Op& o)
+    {
+        if (!shadow || twin_mode != "twin-noop")
+            return;
+        auto live = [&](int k) { return M.live.count(k) != 0; };
+        auto zomb = [&](int k) { return M.Z.count(k) != 0; };
+        Op   o2   = o;
+        o2.splice = false;
+        switch (o.code)
+        {
+            case cs::O_FIND:
+            case cs::O_FINDUC:
+                if (live(o.k))
+                {
+                    if (!x.caps.has_peek)
+                        return; // a hit without a peek option is not on the statement's list
+                    o2.peek = true;
+                }
+                break;
+            case cs::O_FINDR:
+            case cs::O_FINDRF:
+                if (x.caps.has_peek)
+                    o2.peek = true;
+                else
+                {
+                    o2.elems.clear();
+                    for (auto& e : o.elems)
+                        if (!live(e.k))
+                            o2.elems.push_back(e);
+                }
+                break;
+            case cs::O_INS:
+                if (live(o.k))
+                    o2.allow = bx::A_INSERT;
+                else if (!zomb(o.k))
+                    o2.allow = bx::A_UPDATE;
+                else
+                    return;
+                break;
+            case cs::O_INSR:
+                o2.elems.clear();
+                if (o.allow & bx::A_INSERT)
+                {
+                    o2.allow = bx::A_INSERT;
+                    for (auto& e : o.elems)
+                        if (live(e.k))
+                            o2.elems.push_back(e);
+                }
+                else
+                {
+                    o2.allow = bx::A_UPDATE;
+                    for (auto& e : o.elems)
+                        if (!live(e.k) && !zomb(e.k))
+                            o2.elems.push_back(e);
+                }
+                break;
+            case cs::O_ERA:
+                if (live(o.k))
+                    return;
+                break;
+            case cs::O_ERAR:
+                o2.elems.clear();
+                for (auto& e : o.elems)
+                    if (!live(e.k))
+                        o2.elems.push_back(e);
+                break;
+            default: return;
+        }
+        x.exec(*shadow, o2, step);
+        shadow_called = true;
+        ++splices_done;
+        x.label("splices_executed");
+        x.label(std::string("splice_") + cs::op_name(o.code));
+    }
+
     // ---- main loop -----------------------------------------------------------------------------------
     void run()
     {
         invariants(false, observe());
         for (step = 0; step < static_cast<int>(x.c.ops.size()); ++step)
         {
-            const Op& o = x.c.ops[static_cast<size_t>(step)];
-            if (o.splice)
-                continue;
-            if (!x.supported(o))
+            const Op& o0 = x.c.ops[static_cast<size_t>(step)];
+            if (!x.supported(o0))
                 continue;
             note_expired();
             M.expire(vt::now());
+            if (o0.splice)
+            {
+                do_splice(o0);
+                continue;
+            }
+            Op        filtered;
+            const Op* op = &o0;
+            if (twin_mode == "twin-noop" && M.ttl_kind() && o0.allow == bx::A_UPDATE)
+            {
+                // an update-only insert addressed to an expired key may legitimately differ between the twins: not generated
+                if (o0.code == cs::O_INS && M.Z.count(o0.k))
+                {
+                    x.label("excluded_by_statement");
+                    continue;
+                }
+                if (o0.code == cs::O_INSR)
+                {
+                    filtered = o0;
+                    filtered.elems.clear();
+                    for (auto& e : o0.elems)
+                        if (!M.Z.count(e.k))
+                            filtered.elems.push_back(e);
+                        else
+                            x.label("excluded_by_statement");
+                    op = &filtered;
+                }
+            }
+            const Op& o = *op;
             switch (o.code)
             {
                 case cs::O_INS: do_insert(o); break;
@@ -1156,7 +1445,7 @@ struct ModelRun
                 case cs::O_FINDUC:
                 {
                     M.call_start_purge();
-                    Outcome   r   = x.exec(*box, o, step);
+                    Outcome   r   = main_exec(o);
                     const Obs ob1 = observe();
                     lookup_rule(o.k, x.caps.has_peek ? o.peek : false, r.hit, r.v, o.code == cs::O_FINDUC, r.uc, cs::op_name(o.code), 2);
                     invariants(true, ob1);
@@ -1168,7 +1457,7 @@ struct ModelRun
                 {
                     const size_t s0 = box->size();
                     const size_t nl = M.live.size();
-                    Outcome      r  = x.exec(*box, o, step);
+                    Outcome      r  = main_exec(o);
                     const Obs    ob1 = observe();
                     const size_t s1 = ob1.s;
                     if (s0 > nl && nl > 0)
@@ -1189,13 +1478,15 @@ struct ModelRun
                 {
                     bool    mixed = false, hard = false;
                     size_t  want  = M.age(vt::now(), &mixed, &hard);
-                    Outcome r     = x.exec(*box, o, step);
+                    Outcome r     = main_exec(o);
                     if (mixed)
                         x.label("aging_points_mixed");
                     if (hard)
                         x.label("aging_points_mixed_older_entry_fresher");
                     if (want > 0)
                         x.label("aging_points_with_decay");
+                    if (want > 0 && splices_done > 0)
+                        x.label("aging_after_splice");
                     if (r.n != want)
                         x.fail(step, "C14", "dynamically_age_return",
                                "dynamically_age() returned " + std::to_string(r.n) + ", " + std::to_string(want) + " entries were idle longer than the tick");
@@ -1203,7 +1494,7 @@ struct ModelRun
                     break;
                 }
                 case cs::O_UTTL:
-                    x.exec(*box, o, step);
+                    main_exec(o);
                     if (o.ttl_ms < M.ttl_cfg_ms)
                         x.label("update_ttl_shorter");
                     if (o.ttl_ms > M.ttl_cfg_ms)
@@ -1216,12 +1507,22 @@ struct ModelRun
                 {
                     if (!M.live.empty() || !M.Z.empty())
                         x.label("clear_on_nonempty");
-                    x.exec(*box, o, step);
+                    main_exec(o);
                     removals += static_cast<int>(M.live.size());
                     M.live.clear();
                     M.Z.clear();
                     if (box->size() != 0)
                         x.fail(step, "C20,C02", "clear_size_zero", "size() after clear() = " + std::to_string(box->size()));
+                    if (twin_mode == "twin-clear" && step == clear_at)
+                    {
+                        // the twin: a newly constructed container with the same capacity and the currently configured TTL
+                        bx::Config cb = x.c.cfg;
+                        cb.ttl_ms     = M.ttl_cfg_ms;
+                        vt::g_rd_calls.store(0);
+                        shadow      = bx::make_box(cb);
+                        after_clear = true;
+                        x.label("twin_created_after_clear");
+                    }
                     invariants(true, observe());
                     break;
                 }
@@ -1284,6 +1585,12 @@ bool nontrivial_for(const std::string& p, const std::map<std::string, long>& L, 
         return g("inserts_into_full_with_expired_and_live") >= 1;
     if (p == "C17")
         return g("clean_with_live_and_expired") >= 1;
+    if (p == "C18")
+        return g("twin_range_with_duplicate") + g("twin_range_mixed_success") + g("range_insert_with_eviction") >= 1;
+    if (p == "C19")
+        return g("splices_executed") >= 1 && g("evictions_after_splice") + g("aging_after_splice") >= 1;
+    if (p == "C20")
+        return g("twin_created_after_clear") >= 1 && g("clear_on_nonempty") >= 1 && g("evictions_after_clear") + g("expired_after_clear") >= 1;
     return g("evictions") >= 1;
 }
 } // namespace
@@ -1297,6 +1604,21 @@ Result run_model(const cs::Case& c, const Options& opt)
     try
     {
         ModelRun run(x);
+        if (opt.mode == "twin-range" || opt.mode == "twin-noop")
+        {
+            run.twin_mode = opt.mode;
+            run.twin_tag  = opt.mode == "twin-range" ? "C18" : "C19";
+            vt::g_rd_calls.store(0); // both instances draw the same random_device values
+            run.shadow = bx::make_box(c.cfg);
+        }
+        else if (opt.mode == "twin-clear")
+        {
+            run.twin_mode = opt.mode;
+            run.twin_tag  = "C20";
+            for (size_t i = 0; i < c.ops.size(); ++i)
+                if (c.ops[i].code == cs::O_CLEAR && !c.ops[i].splice && x.supported(c.ops[i]))
+                    run.clear_at = static_cast<int>(i);
+        }
         run.run();
         // final full scan including expired entries (C04)
         run.M.call_start_purge();
@@ -1325,16 +1647,13 @@ Result run_model(const cs::Case& c, const Options& opt)
     return x.res;
 }
 
-Result run_twin(const cs::Case& c, const Options& opt);     // twin.cpp
 Result run_stats_rr(const cs::Case& c, const Options& opt); // twin.cpp
 
 Result run_case(const cs::Case& c, const Options& opt)
 {
-    if (opt.mode == "model")
-        return run_model(c, opt);
     if (opt.mode == "stats-rr")
         return run_stats_rr(c, opt);
-    return run_twin(c, opt);
+    return run_model(c, opt);
 }
 
 std::string result_to_text(const Result& r)
